@@ -491,11 +491,85 @@ def d3(x, p=Params()):
 '''
 
 
+def analyse_lazy_fields(tree):
+    """Lazily filled instance slot of a configurable object: a class-level field X whose default is None, filled in an
+    ordinary method under `if self.X is None:` with a value computed from other declared (assignable) fields of the
+    object, and never reset anywhere in the class.  The object's fields are public and assignable (the class defines
+    no __setattr__ and is not frozen), so after `obj.field = new` the method keeps answering for the old field: the
+    result is no longer a function of the object's current configuration."""
+    out = []
+    for c in [n for n in ast.walk(tree) if isinstance(n, ast.ClassDef)]:
+        frozen = any(isinstance(d, ast.Call) and any(k.arg == "frozen" and isinstance(k.value, ast.Constant) and k.value.value for k in d.keywords) for d in c.decorator_list)
+        methods = [n for n in c.body if isinstance(n, (ast.FunctionDef, ast.AsyncFunctionDef))]
+        if frozen or any(m.name in ("__setattr__", "__getattribute__") for m in methods):
+            continue
+        fields, none_fields = set(), set()
+        for st in c.body:
+            if isinstance(st, ast.AnnAssign) and isinstance(st.target, ast.Name):
+                fields.add(st.target.id)
+                v = st.value
+                is_none = isinstance(v, ast.Constant) and v.value is None
+                if isinstance(v, ast.Call) and ast.unparse(v.func).split(".")[-1] == "field":
+                    is_none = any(k.arg == "default" and isinstance(k.value, ast.Constant) and k.value.value is None for k in v.keywords)
+                if is_none:
+                    none_fields.add(st.target.id)
+        if not none_fields:
+            continue
+
+        def self_attr(n, names):
+            return isinstance(n, ast.Attribute) and isinstance(n.value, ast.Name) and n.value.id == "self" and n.attr in names
+
+        for m in methods:
+            if m.name in ("__init__", "__post_init__", "__new__", "__setstate__"):
+                continue
+            for i in [n for n in ast.walk(m) if isinstance(n, ast.If)]:
+                t = i.test
+                if not (isinstance(t, ast.Compare) and len(t.ops) == 1 and isinstance(t.ops[0], ast.Is) and self_attr(t.left, none_fields) and isinstance(t.comparators[0], ast.Constant) and t.comparators[0].value is None):
+                    continue
+                x = t.left.attr
+                for a in [n for st in i.body for n in ast.walk(st) if isinstance(n, ast.Assign)]:
+                    if not any(self_attr(tg, {x}) for tg in a.targets):
+                        continue
+                    deps = sorted({n.attr for n in ast.walk(a.value) if self_attr(n, fields - {x})})
+                    # reset anywhere else in the class (`self.X = None` outside the guard, `del self.X`): an invalidation
+                    # protocol exists and is judged by the rules of the property, not here
+                    resets = [
+                        n for mm in methods for n in ast.walk(mm)
+                        if (isinstance(n, ast.Assign) and n is not a and any(self_attr(tg, {x}) for tg in n.targets) and isinstance(n.value, ast.Constant) and n.value.value is None)
+                        or (isinstance(n, ast.Delete) and any(self_attr(tg, {x}) for tg in n.targets))
+                    ]
+                    if deps and not resets:
+                        out.append(MemoFinding(f"{c.name}.{m.name}", a.lineno, "self." + x, ["self." + d for d in deps], "instance slot filled once under `is None` and never reset, although the fields it was computed from stay assignable"))
+    return out
+
+
+SELFTEST_LAZY = """
+class A:
+    t: float
+    g: float = 1.0
+    _pb: float | None = None
+    _ok: float | None = None
+    def pb(self):
+        if self._pb is None:
+            self._pb = f(self.t, self.g)
+        return self._pb
+    def ok(self):
+        if self._ok is None:
+            self._ok = g(self.t)
+        return self._ok
+    def set_t(self, t):
+        self.t = t
+        self._ok = None
+"""
+
+
 def selftest():
     f, _n, _k = analyse_module(ast.parse(SELFTEST_SRC), "<selftest>")
     sh = analyse_shared_state(ast.parse(SELFTEST_SHARED))
     ok_shared = sorted((x.func, x.state) for x in sh) == [("A", "A.shared"), ("d1", "default of acc"), ("d3", "default of p"), ("f", "_OPTS"), ("g", "_COLS")]
-    return len(f) == 1 and f[0].func == "f" and set(f[0].missing) == {"b", "c"} and ok_shared
+    lz = analyse_lazy_fields(ast.parse(SELFTEST_LAZY))
+    ok_lazy = [(x.func, x.state) for x in lz] == [("A.pb", "self._pb")]
+    return len(f) == 1 and f[0].func == "f" and set(f[0].missing) == {"b", "c"} and ok_shared and ok_lazy
 
 
 def check_modules(ctx, rule, module_names):
@@ -508,7 +582,7 @@ def check_modules(ctx, rule, module_names):
     for mn in module_names:
         m = ctx.P.module(mn)
         findings, nstate, nfuncs = analyse_module(m.tree, m.relpath)
-        findings = list(findings) + analyse_shared_state(m.tree)
+        findings = list(findings) + analyse_shared_state(m.tree) + analyse_lazy_fields(m.tree)
         total_funcs += nfuncs
         if not findings:
             ctx.ok(
